@@ -152,7 +152,7 @@ func ruleNoBlockUnderRegistryLock(c *Ctx, rule string, lockFilter func(string) b
 			}
 			sort.Strings(held)
 			nunder++
-			construct := p.fnKey(f) + ":" + p.opDesc(op) + ":under:" + strings.Join(held, "+")
+			construct := p.cname(f) + ":" + p.opDesc(op) + ":under:" + strings.Join(held, "+")
 			if seen[construct] {
 				continue
 			}
@@ -174,14 +174,14 @@ func ruleNoBlockUnderRegistryLock(c *Ctx, rule string, lockFilter func(string) b
 		if _, ok := registryLocks[k]; !ok || !lockFilter(k) {
 			continue
 		}
-		construct := p.fnKey(a.Parent()) + ":section:" + k
+		construct := p.cname(a.Parent()) + ":section:" + k
 		if seen["sec:"+construct] {
 			continue
 		}
 		seen["sec:"+construct] = true
 		dirty := false
 		for s := range seen {
-			if strings.HasPrefix(s, p.fnKey(a.Parent())+":") && strings.Contains(s, ":under:") && strings.Contains(s, k) {
+			if strings.HasPrefix(s, p.cname(a.Parent())+":") && strings.Contains(s, ":under:") && strings.Contains(s, k) {
 				dirty = true
 			}
 		}
@@ -386,7 +386,7 @@ func ruleGuardedFields(c *Ctx, rule string, filter func(guardEntry) bool) {
 				return
 			}
 			naccess[fk]++
-			construct := p.fnKey(f) + ":" + fk.String()
+			construct := p.cname(f) + ":" + fk.String()
 			if p.isInitPhase(fa) {
 				c.trivial(rule, construct+":init", true, "access to an object allocated in this function before it is shared (init phase)", p.ipos(i))
 				return
@@ -535,7 +535,7 @@ func ruleCloseSendExclusion(c *Ctx, rule string, classFilter func(desc string) b
 			if s.kind != "send" || !classesIntersect(cls, p.chanClass(s.ch)) {
 				continue
 			}
-			construct := "close:" + p.fnKey(cl.instr.Parent()) + ":" + desc + "/send:" + p.fnKey(s.instr.Parent()) + ":" + p.chanDesc(s.ch)
+			construct := "close:" + p.cname(cl.instr.Parent()) + ":" + desc + "/send:" + p.cname(s.instr.Parent()) + ":" + p.chanDesc(s.ch)
 			// safe pattern A: same registry lock, element looked up in the same critical section
 			okA := false
 			for l := range closeLocks {
@@ -593,7 +593,7 @@ func ruleNoDoubleClose(c *Ctx, rule string, classFilter func(desc string) bool) 
 		if classFilter != nil && !classFilter(desc) {
 			continue
 		}
-		construct := "close:" + p.fnKey(cl.instr.Parent()) + ":" + desc
+		construct := "close:" + p.cname(cl.instr.Parent()) + ":" + desc
 		f := cl.instr.Parent()
 		// registry element?
 		isElem := strings.HasSuffix(desc, "[]") || isRegistryElemField(cl.ch)
@@ -670,7 +670,7 @@ func ruleEscapable(c *Ctx, rule string, fns []*ssa.Function, exceptions map[stri
 				continue // user code: its own liveness is the user's
 			}
 			n++
-			construct := p.fnKey(f) + ":" + p.opDesc(op)
+			construct := p.cname(f) + ":" + p.opDesc(op)
 			seen[construct]++
 			if seen[construct] > 1 {
 				construct += fmt.Sprintf("#%d", seen[construct])
@@ -931,7 +931,7 @@ func ruleCancelNotDropped(c *Ctx, rule string) {
 						}
 					}
 				}
-				cons := "returned-by:" + p.fnKey(f) + "→" + p.fnKey(cs.caller)
+				cons := "returned-by:" + p.cname(f) + "→" + p.cname(cs.caller)
 				if ext == nil {
 					c.check(rule, cons, false, "caller discards the returned cancel function", p.ipos(call))
 					continue
@@ -955,7 +955,7 @@ func ruleCancelNotDropped(c *Ctx, rule string) {
 				return
 			}
 			n++
-			construct := p.fnKey(f) + ":" + strings.TrimPrefix(calleeName(&call.Call), "context.")
+			construct := p.cname(f) + ":" + strings.TrimPrefix(calleeName(&call.Call), "context.")
 			// disambiguate several sites in one function by ordinal
 			k := 0
 			for _, o := range c.obs {
@@ -1137,7 +1137,7 @@ func rulePanicReachability(c *Ctx, rule string, fnFilter func(*ssa.Function) boo
 			continue
 		}
 		n++
-		construct := p.fnKey(f) + ":" + ps.kind
+		construct := p.cname(f) + ":" + ps.kind
 		k := 0
 		for _, o := range c.obs {
 			if o.Rule == rule && (o.Construct == construct || strings.HasPrefix(o.Construct, construct+"#")) {
@@ -1243,7 +1243,7 @@ func ruleOptionalSubMsgNilChecked(c *Ctx, rule string, fnFilter func(*ssa.Functi
 				return
 			}
 			n++
-			construct := p.fnKey(f) + ":" + sub + "." + fname
+			construct := p.cname(f) + ":" + sub + "." + fname
 			path := p.lpath(base)
 			facts := p.Facts(i)
 			guarded := facts.NonNil(path)
